@@ -34,7 +34,7 @@ func init() {
 	register(&c01{base{
 		id:          "C01",
 		level:       lvlExploration,
-		rule:        "each case: seeded file set (1..12 files; sizes 1 byte..>16 KiB around multiples of the slice size; random, all-zero, short-period, duplicate-slice and mixed content; names in sub-directories) -> real par2.Create (random goroutine count) -> 0..4 damage operations on a segment model (delete, overwrite, flip, insert, cut, truncate, append, swap, copy-under-other-name) -> loss of a random subset of recovery files -> real par2.Repair on the directory. The model knows which protected slices still lie wholly inside a surviving segment (witnesses): k = slices without witness; blocks = distinct exponents the reference reader finds in the remaining volume files. Success (and byte-identical files) is demanded iff k <= blocks, except when the format-forced system (lowest available exponents x missing slices) is singular by reference elimination, where an error is demanded. A nil error always demands identical files. A key is (content class, slice size, #files, #ops, k, blocks, demanded?); non-trivial = at least one damage op or lost volume. Index base names and set directories may contain '%'; Create's postcondition (index written, blocks 0..n-1 beside it under <base>.*.par2) is checked before any damage. A fifth of the scenarios store surviving recovery files twice under other names; half spell the index path in a non-clean form (/./, //, x/../x).. One set of exactly 32768 slices is part of the quick tier.. Demand computed from the witness set closed under equal slice content; pinned scenarios blocks-40000 (only the highest-numbered recovery file kept) and copy-survives. Pinned scenario files-300 (300 protected files in seven directories).",
+		rule:        "each case: seeded file set (1..12 files; sizes 1 byte..>16 KiB around multiples of the slice size; random, all-zero, short-period, duplicate-slice and mixed content; names in sub-directories) -> real par2.Create (random goroutine count) -> 0..4 damage operations on a segment model (delete, overwrite, flip, insert, cut, truncate, append, swap, copy-under-other-name) -> loss of a random subset of recovery files -> real par2.Repair on the directory. The model knows which protected slices still lie wholly inside a surviving segment (witnesses): k = slices without witness; blocks = distinct exponents the reference reader finds in the remaining volume files. Success (and byte-identical files) is demanded iff k <= blocks, except when the format-forced system (lowest available exponents x missing slices) is singular by reference elimination, where an error is demanded. A nil error always demands identical files. A key is (content class, slice size, #files, #ops, k, blocks, demanded?); non-trivial = at least one damage op or lost volume. Index base names and set directories may contain '%'; Create's postcondition (index written, blocks 0..n-1 beside it under <base>.*.par2) is checked before any damage. A fifth of the scenarios store surviving recovery files twice under other names; half spell the index path in a non-clean form (/./, //, x/../x).. One set of exactly 32768 slices is part of the quick tier.. Demand computed from the witness set closed under equal slice content; pinned scenarios blocks-40000 (only the highest-numbered recovery file kept) and copy-survives. Pinned scenario files-300 (300 protected files in seven directories). A quarter of the scenarios have a neighbouring recovery set <base>.0sib.par2 and an unreadable <base>2.vol00+01.par2 in the directory.",
 		assumptions: append([]string{"recovery files are deleted, never corrupted (corruption is C13)", "garbage bytes are non-zero random bytes; only lower bounds are derived from witnesses, upper bounds from a brute-force content finder"}, commonAssumptions...),
 		opts:        core.WorkerOpts{CrashIsViolation: true, WallSeconds: 2400},
 	}})
